@@ -1524,7 +1524,9 @@ class AdapterIndex:
         # Fix this by re-doing the alignment.
         adapter = result[0]
         match = adapter.match_to(affix)
-        if match is None:
+        if match is None or match.rstop - match.rstart != len(affix):
+            # The re-done alignment must span the affix, otherwise the
+            # errors and the score do not belong to an affix of this length
             return None
         return adapter, match.errors, match.score
 
